@@ -32,6 +32,19 @@ theorem zero_where_no_sample (weight : ℝ → ℝ → Option ℝ) (freqs row : 
   rw [smooth_is_normalised_average, h]
   simp
 
+/-- a window that reaches samples but gives every one of them the weight 0 (a triangular window whose only samples sit exactly on its two
+edges) yields 0 as well -- never 0/0 (the boundary of seed C02-W, exercised by the exact stream of `harness/c02.py`) -/
+theorem zero_where_no_weight (weight : ℝ → ℝ → Option ℝ) (freqs row : List ℝ) (fc : ℝ)
+    (h : ∀ p ∈ contrib weight freqs row fc, p.1 = 0) : kernelSmoothRow weight freqs row fc = 0 := by
+  rw [smooth_is_normalised_average]
+  have hs : ((contrib weight freqs row fc).map (·.1)).sum = 0 := by
+    apply List.sum_eq_zero
+    intro x hx
+    obtain ⟨p, hp, rfl⟩ := List.mem_map.mp hx
+    exact h p hp
+  rw [hs]
+  simp
+
 theorem sum_mul_const (ps : List (ℝ × ℝ)) (c : ℝ) (h : ∀ p ∈ ps, p.2 = c) :
     (ps.map (fun p => p.1 * p.2)).sum = (ps.map (·.1)).sum * c := by
   induction ps with
@@ -181,6 +194,11 @@ theorem linTri_is_hat (bw f fc : ℝ) :
   unfold linTriWeight guard
   simp only [lit_real, smoothConsts, ofNat_real, absA_real]
   norm_num
+
+/-- a sample exactly on the edge of the triangular window is reached and has the weight 0 (the premise of `zero_where_no_weight` is met by real grids:
+`f = 7.5, 8.0`, `fc = 7.75`, `b = 0.5`) -/
+theorem linTri_edge_weight_zero : linTriWeight (0.5 : ℝ) 7.5 7.75 = some 0 ∧ linTriWeight (0.5 : ℝ) 8.0 7.75 = some 0 := by
+  constructor <;> rw [linTri_is_hat] <;> norm_num [abs_of_nonneg, abs_of_neg]
 
 theorem linRect_nonneg (bw f fc w : ℝ) (h : linRectWeight bw f fc = some w) : 0 ≤ w := by
   rw [linRect_is_indicator] at h
